@@ -173,6 +173,18 @@ Proof.
   intros x vs n _ _. exists vs, n. split; [constructor|]. split; [apply chg_refl|lia].
 Qed.
 
+
+Lemma G_cons : forall c w ws (T : state -> Prop) s fk' vs3 n3,
+  steps s (N (g_pc c) (SV w :: g_st c) (fk' ++ g_base c) vs3 n3) ->
+  chg (g_own c) (vars_of s) vs3 -> lbl_of s <= n3 ->
+  (forall vs2 n2, keepS c vs3 vs2 -> n3 <= n2 ->
+     G c ws T (B None (fk' ++ g_base c) vs2 n2) /\
+     (forall x, okerr (g_n0 c) x -> exists vs4 n4,
+         steps (B (Some x) (fk' ++ g_base c) vs2 n2) (B (Some x) (g_base c) vs4 n4) /\
+         chg (g_own c) vs2 vs4 /\ n2 <= n4)) ->
+  G c (w :: ws) T s.
+Proof. intros. simpl. exists fk', vs3, n3. auto. Qed.
+
 Lemma seq_nil_r : forall r, seq r ([], None) = r.
 Proof. intros [ws [x|]]; simpl; auto. rewrite app_nil_r. auto. Qed.
 
